@@ -2,10 +2,17 @@
 //! connector, against a real in-process tonic server whose connections the script can sever.
 //!
 //! One case = (lazy|eager, connector latency, initial reachability, history) where the history is a
-//! list of steps over {connect fails r, connect succeeds, established connection dropped, Call}.
-//! Environment steps change what the connector will answer / kill the live connection; `Call`
-//! issues one unary call (`grpc.health.v1.Health/Check`) once the runtime is quiescent (paused
-//! tokio clock: a virtual sleep only returns when no task can make progress).
+//! list of steps over {connect fails r, connect succeeds, established connection dropped, Calls k}.
+//! Environment steps change what the connector will answer / kill the live connection; `Calls k`
+//! issues k unary calls (`grpc.health.v1.Health/Check`) TOGETHER once the runtime is quiescent
+//! (paused tokio clock: a virtual sleep only returns when no task can make progress): k tasks are
+//! spawned in order, each enqueues its request in the tower Buffer before the worker runs, so
+//! k-1 requests are queued while the first one is being served (possibly connecting).
+//! Two further connector outcomes (audit M4, kinds `*.handshake`): the transport connects but the
+//! peer closes at once (the HTTP/2 handshake fails: a connect failure, STRICTLY UNAVAILABLE - this is
+//! the fixed finding F-C14a) / the peer answers with bytes that are not HTTP/2 (hyper's handshake
+//! only writes, so a connection is established and dies under the request: like a racy drop,
+//! outside the quantifier; CANCELLED or UNAVAILABLE accepted - observation F-C14b).
 use hyper_util::rt::TokioIo;
 use serde_json::{json, Value};
 use std::future::Future;
@@ -28,45 +35,93 @@ static PANICS: AtomicUsize = AtomicUsize::new(0);
 
 // ------------------------------------------------------------------ history
 #[derive(Clone, Copy, Debug, PartialEq, Eq)]
-enum Step {
-    Fail(u32),
-    Succeed,
-    Drop,
-    /// outside the property's quantifier: the peer drops the connection and the call is issued
-    /// before the client's connection task has run (not a quiescent point)
-    DropRacy,
-    Call,
+enum Net {
+    Up,
+    Down(u32),
+    /// the connector returns an io whose other end is already closed
+    Dead,
+    /// the connector returns an io whose other end writes an HTTP/1.1 error and closes
+    Garbage,
 }
-impl Step {
+impl Net {
     fn coq(&self) -> String {
         match self {
-            Step::Fail(r) => format!("Env (ConnectFails {})", r),
-            Step::Succeed => "Env ConnectSucceeds".into(),
-            Step::Drop => "Env ConnectionDropped".into(),
-            Step::DropRacy => "EnvRacyDrop true".into(),
-            Step::Call => "Call".into(),
+            Net::Up => "Up".into(),
+            Net::Down(r) => format!("(Down {})", r),
+            Net::Dead => "UpDead".into(),
+            Net::Garbage => "UpGarbage".into(),
         }
     }
     fn json(&self) -> Value {
         match self {
-            Step::Fail(r) => json!({"fail": r}),
-            Step::Succeed => json!("succeed"),
+            Net::Up => json!("up"),
+            Net::Down(r) => json!({"down": r}),
+            Net::Dead => json!("dead"),
+            Net::Garbage => json!("garbage"),
+        }
+    }
+    fn from_json(v: &Value) -> Net {
+        if let Some(r) = v.get("down") {
+            return Net::Down(r.as_u64().unwrap() as u32);
+        }
+        match v.as_str().unwrap_or("up") {
+            "dead" => Net::Dead,
+            "garbage" => Net::Garbage,
+            _ => Net::Up,
+        }
+    }
+    fn plain(&self) -> bool {
+        matches!(self, Net::Up | Net::Down(_))
+    }
+}
+#[derive(Clone, Copy, Debug, PartialEq, Eq)]
+enum Step {
+    /// environment: what the connector answers from now on
+    Set(Net),
+    Drop,
+    /// outside the property's quantifier: the peer drops the connection and the next calls are
+    /// issued before the client's connection task has run (not a quiescent point)
+    DropRacy,
+    /// k calls issued together
+    Calls(u32),
+}
+const CALL: Step = Step::Calls(1);
+impl Step {
+    fn coq(&self) -> String {
+        match self {
+            Step::Set(Net::Up) => "Env ConnectSucceeds".into(),
+            Step::Set(Net::Down(r)) => format!("Env (ConnectFails {})", r),
+            Step::Set(Net::Dead) => "Env ConnectSucceedsDead".into(),
+            Step::Set(Net::Garbage) => "Env ConnectSucceedsGarbage".into(),
+            Step::Drop => "Env ConnectionDropped".into(),
+            Step::DropRacy => "EnvRacyDrop true".into(),
+            Step::Calls(1) => "Call".into(),
+            Step::Calls(k) => format!("Calls {}", k),
+        }
+    }
+    fn json(&self) -> Value {
+        match self {
+            Step::Set(n) => json!({"set": n.json()}),
             Step::Drop => json!("drop"),
             Step::DropRacy => json!("drop_racy"),
-            Step::Call => json!("call"),
+            Step::Calls(k) => json!({"calls": k}),
         }
     }
     fn from_json(v: &Value) -> Step {
-        if let Some(r) = v.get("fail") {
-            return Step::Fail(r.as_u64().unwrap() as u32);
+        if let Some(n) = v.get("set") {
+            return Step::Set(Net::from_json(n));
+        }
+        if let Some(k) = v.get("calls") {
+            return Step::Calls(k.as_u64().unwrap() as u32);
         }
         match v.as_str().unwrap() {
-            "succeed" => Step::Succeed,
             "drop" => Step::Drop,
-            "drop_racy" => Step::DropRacy,
-            _ => Step::Call,
+            _ => Step::DropRacy,
         }
     }
+}
+fn n_calls(h: &[Step]) -> usize {
+    h.iter().map(|s| if let Step::Calls(k) = s { *k as usize } else { 0 }).sum()
 }
 
 // ------------------------------------------------------------------ severable server-side io
@@ -135,8 +190,7 @@ impl Connected for Pipe {
 
 // ------------------------------------------------------------------ world + scripted connector
 struct WorldSt {
-    /// None = reachable, Some(reason) = connection attempts are refused
-    down: Option<u32>,
+    net: Net,
     lat: u32,
     attempts: u64,
     current: Option<Arc<Mutex<PipeSt>>>,
@@ -156,21 +210,35 @@ impl tower_service::Service<Uri> for ScriptedConnector {
     }
     fn call(&mut self, _uri: Uri) -> Self::Future {
         let w = self.0.clone();
-        let (k, down, lat) = {
+        let (k, net, lat) = {
             let mut s = w.0.lock().unwrap();
             s.attempts += 1;
-            (s.attempts, s.down, s.lat)
+            (s.attempts, s.net, s.lat)
         };
         Box::pin(async move {
             for _ in 0..lat {
                 tokio::task::yield_now().await; // one Pending poll each
             }
-            match down {
-                Some(r) => Err(std::io::Error::new(
+            match net {
+                Net::Down(r) => Err(std::io::Error::new(
                     std::io::ErrorKind::ConnectionRefused,
                     format!("scripted refuse #{} r{}", k, r),
                 )),
-                None => {
+                Net::Dead => {
+                    let (c, s) = tokio::io::duplex(1 << 16);
+                    drop(s);
+                    Ok(TokioIo::new(c))
+                }
+                Net::Garbage => {
+                    let (c, mut s) = tokio::io::duplex(1 << 16);
+                    tokio::spawn(async move {
+                        use tokio::io::AsyncWriteExt;
+                        let _ = s.write_all(b"HTTP/1.1 400 Bad Request\r\nconnection: close\r\n\r\n").await;
+                        drop(s);
+                    });
+                    Ok(TokioIo::new(c))
+                }
+                Net::Up => {
                     let (c, s) = tokio::io::duplex(1 << 16);
                     let st = Arc::new(Mutex::new(PipeSt { io: Some(s), wakers: vec![] }));
                     let mut g = w.0.lock().unwrap();
@@ -187,7 +255,8 @@ impl tower_service::Service<Uri> for ScriptedConnector {
 #[derive(Clone, Debug, PartialEq)]
 enum Outcome {
     Ok,
-    /// (grpc code, attempt number, reason) - attempt/reason parsed from "scripted refuse #k rR", 0/0 if absent
+    /// (grpc code, attempt number, reason, message) - attempt/reason parsed from
+    /// "scripted refuse #k rR", 0/0 if absent
     Err(u32, u64, u32, String),
     Hang,
 }
@@ -232,10 +301,24 @@ async fn settle() {
     tokio::time::sleep(Duration::from_millis(50)).await;
 }
 
-async fn run_case(lazy: bool, lat: u32, down0: Option<u32>, hist: &[Step]) -> Obs {
+async fn one_call(mut client: HealthClient<tonic::transport::Channel>) -> Outcome {
+    let req = HealthCheckRequest { service: String::new() };
+    match tokio::time::timeout(Duration::from_secs(3600), client.check(req)).await {
+        Err(_) => Outcome::Hang,
+        // the real server's answer: the overall health "" is SERVING (= 1)
+        Ok(Ok(resp)) if resp.get_ref().status == 1 => Outcome::Ok,
+        Ok(Ok(resp)) => Outcome::Err(999, 0, 0, format!("unexpected response {:?}", resp.get_ref())),
+        Ok(Err(st)) => {
+            let (k, r) = parse_refuse(st.message());
+            Outcome::Err(st.code() as i32 as u32, k, r, st.message().to_string())
+        }
+    }
+}
+
+async fn run_case(lazy: bool, lat: u32, net0: Net, hist: &[Step]) -> Obs {
     let p0 = PANICS.load(Ordering::SeqCst);
     let (tx, rx) = mpsc::unbounded_channel();
-    let world = World(Arc::new(Mutex::new(WorldSt { down: down0, lat, attempts: 0, current: None, tx })));
+    let world = World(Arc::new(Mutex::new(WorldSt { net: net0, lat, attempts: 0, current: None, tx })));
     let (_rep, health) = tonic_health::server::health_reporter();
     let server = tokio::spawn(
         Server::builder()
@@ -258,6 +341,8 @@ async fn run_case(lazy: bool, lat: u32, down0: Option<u32>, hist: &[Step]) -> Ob
                 Some(ch)
             }
             Ok(Err(e)) => {
+                // connect() returns a transport::Error, not a Status; its class is what
+                // Status::from_error (used by every generated client) makes of it
                 let text = format!("{} / {:?}", e, e);
                 let st = tonic::Status::from_error(Box::new(e));
                 let (k, r) = parse_refuse(&format!("{} {}", st.message(), text));
@@ -267,11 +352,11 @@ async fn run_case(lazy: bool, lat: u32, down0: Option<u32>, hist: &[Step]) -> Ob
         }
     };
     if let Some(ch) = ch {
-        let mut client = HealthClient::new(ch);
+        settle().await;
+        let client = HealthClient::new(ch);
         for s in hist {
             match s {
-                Step::Fail(r) => world.0.lock().unwrap().down = Some(*r),
-                Step::Succeed => world.0.lock().unwrap().down = None,
+                Step::Set(n) => world.0.lock().unwrap().net = *n,
                 Step::Drop | Step::DropRacy => {
                     let cur = world.0.lock().unwrap().current.take();
                     if let Some(c) = cur {
@@ -281,19 +366,13 @@ async fn run_case(lazy: bool, lat: u32, down0: Option<u32>, hist: &[Step]) -> Ob
                         continue; // no settling: the next step runs before anybody noticed
                     }
                 }
-                Step::Call => {
-                    let req = HealthCheckRequest { service: String::new() };
-                    let o = match tokio::time::timeout(Duration::from_secs(3600), client.check(req)).await {
-                        Err(_) => Outcome::Hang,
-                        // the real server's answer: the overall health "" is SERVING (= 1)
-                        Ok(Ok(resp)) if resp.get_ref().status == 1 => Outcome::Ok,
-                        Ok(Ok(resp)) => Outcome::Err(999, 0, 0, format!("unexpected response {:?}", resp.get_ref())),
-                        Ok(Err(st)) => {
-                            let (k, r) = parse_refuse(st.message());
-                            Outcome::Err(st.code() as i32 as u32, k, r, st.message().to_string())
-                        }
-                    };
-                    obs.calls.push(o);
+                Step::Calls(k) => {
+                    // spawned in order on the single-threaded runtime: they run in order, each
+                    // enqueues its request and waits; only then does the Buffer worker run
+                    let hs: Vec<_> = (0..*k).map(|_| tokio::spawn(one_call(client.clone()))).collect();
+                    for h in hs {
+                        obs.calls.push(h.await.unwrap_or(Outcome::Hang));
+                    }
                 }
             }
             settle().await;
@@ -305,122 +384,187 @@ async fn run_case(lazy: bool, lat: u32, down0: Option<u32>, hist: &[Step]) -> Ob
     obs
 }
 
-fn run_blocking(lazy: bool, lat: u32, down0: Option<u32>, hist: &[Step]) -> Obs {
+fn run_blocking(lazy: bool, lat: u32, net0: Net, hist: &[Step]) -> Obs {
     let rt = tokio::runtime::Builder::new_current_thread()
         .enable_time()
         .start_paused(true)
         .build()
         .unwrap();
-    let o = rt.block_on(run_case(lazy, lat, down0, hist));
+    let o = rt.block_on(run_case(lazy, lat, net0, hist));
     drop(rt);
     o
 }
 
 // ------------------------------------------------------------------ direct oracle
-/// Model-independent check of the property on what the implementation did.
-fn oracle(lazy: bool, down0: Option<u32>, hist: &[Step], o: &Obs) -> Option<String> {
+/// Model-independent check of the property on what the implementation did.  It replays only the
+/// ENVIRONMENT (what the connector answers, whether a usable connection exists) and demands of
+/// every call, in queue order: a response if a connection exists or can be made; otherwise an
+/// UNAVAILABLE error that is the failure of a fresh attempt made for this very call (attempt
+/// number = invocations so far + 1, reason = the refusal in force); in total exactly one
+/// connector invocation per call that found no connection.
+fn oracle(lazy: bool, net0: Net, hist: &[Step], o: &Obs) -> Option<String> {
+    #[derive(PartialEq, Clone, Copy)]
+    enum Conn {
+        No,
+        Live,
+        /// established to a peer that is not HTTP/2: usable-looking until the next quiescent point
+        Doomed,
+        /// dropped by the peer off a quiescent point: the runtime decides who runs first
+        MaybeLive,
+    }
     if o.panics > 0 {
         return Some(format!("{} panic(s) inside the channel's tasks", o.panics));
     }
-    let quiescent = !hist.contains(&Step::DropRacy);
-    // eager: an initial failure is returned by connect() itself, immediately (one attempt)
+    let mut attempts: u64 = 0;
+    let mut conn = Conn::No;
     if !lazy {
-        match (&o.eager, down0) {
+        attempts = 1;
+        match (&o.eager, net0) {
             (Some(Outcome::Hang), _) => return Some("eager connect() hangs".into()),
-            (Some(Outcome::Ok), None) => {}
-            (Some(Outcome::Err(c, k, r, _)), Some(r0)) => {
+            (None, _) => return Some("eager connect() reported nothing".into()),
+            (Some(Outcome::Ok), Net::Up) => conn = Conn::Live,
+            (Some(Outcome::Ok), Net::Garbage) => {} // hyper's client handshake only writes: cannot know
+            (Some(Outcome::Ok), _) => {
+                return Some("eager connect() returned a channel although no connection could be made".into())
+            }
+            (Some(Outcome::Err(..)), Net::Up) | (Some(Outcome::Err(..)), Net::Garbage) => {
+                return Some("eager connect() failed although the endpoint accepted".into())
+            }
+            (Some(Outcome::Err(c, k, r, _)), Net::Down(r0)) => {
                 if *c != 14 {
                     return Some(format!("eager connect error maps to code {} not UNAVAILABLE", c));
                 }
-                if *k != 1 || *r != r0 || o.attempts != 1 {
+                if *k != 1 || *r != r0 || o.attempts != 1 || !o.calls.is_empty() {
                     return Some("eager connect error is not the error of the first and only attempt".into());
-                }
-                if !o.calls.is_empty() {
-                    return Some("calls on a channel that was never returned".into());
                 }
                 return None;
             }
-            (Some(Outcome::Ok), Some(_)) => return Some("eager connect() returned a channel although the endpoint refused".into()),
-            (Some(Outcome::Err(..)), None) => return Some("eager connect() failed although the endpoint was reachable".into()),
-            (None, _) => return Some("eager connect() reported nothing".into()),
+            (Some(Outcome::Err(c, ..)), Net::Dead) => {
+                if *c != 14 {
+                    return Some(format!("handshake-fault(dead): eager connect error maps to code {} not UNAVAILABLE", c));
+                }
+                if o.attempts != 1 || !o.calls.is_empty() {
+                    return Some("eager connect failure not immediate".into());
+                }
+                return None;
+            }
         }
     }
-    // replay the environment independently of the model: only reachability and liveness of the
-    // connection, no Reconnect state
-    let mut down = down0;
-    let mut have_conn = !lazy; // eager success left a live connection
-    let mut racy_pending = false;
-    let mut seen_attempts: Vec<u64> = vec![];
-    let mut i = 0;
-    let n_calls = hist.iter().filter(|s| **s == Step::Call).count();
-    if o.calls.len() != n_calls {
+    if o.calls.len() != n_calls(hist) {
         return Some("a call did not produce an outcome".into());
     }
+    let mut net = net0;
+    let mut i = 0;
+    let mut last_reported: u64 = 0;
     for s in hist {
         match s {
-            Step::Fail(r) => down = Some(*r),
-            Step::Succeed => down = None,
-            Step::Drop => have_conn = false,
-            Step::DropRacy => {
-                if have_conn {
-                    racy_pending = true;
+            Step::Set(n) => {
+                net = *n;
+                if conn == Conn::MaybeLive {
+                    conn = Conn::No; // the step settled
                 }
-                have_conn = false;
             }
-            Step::Call => {
-                let out = &o.calls[i];
-                i += 1;
-                match out {
-                    Outcome::Hang => return Some(format!("call {} hangs", i)),
-                    Outcome::Ok => {
-                        if racy_pending {
-                            racy_pending = false;
-                        }
-                        if !have_conn && down.is_some() {
-                            return Some(format!("call {} succeeded although no connection can exist", i));
-                        }
-                        have_conn = true;
+            Step::Drop => conn = Conn::No,
+            Step::DropRacy => {
+                if conn == Conn::Live {
+                    conn = Conn::MaybeLive;
+                }
+            }
+            Step::Calls(k) => {
+                for j in 0..*k {
+                    let out = &o.calls[i];
+                    i += 1;
+                    if *out == Outcome::Hang {
+                        return Some(format!("call {} hangs", i));
                     }
-                    Outcome::Err(c, k, r, m) => {
-                        if racy_pending {
-                            // outside the quantifier: one transport error is tolerated, but it must
-                            // still be definite and in the UNAVAILABLE class or a transport error
-                            racy_pending = false;
-                            if *k != 0 {
-                                seen_attempts.push(*k);
-                            }
-                            continue;
-                        }
-                        if have_conn || down.is_none() {
-                            return Some(format!(
-                                "call {} failed ({} {:?}) although the endpoint is reachable: no recovery",
-                                i, c, m
-                            ));
-                        }
-                        if *c != 14 {
-                            return Some(format!("call {} failed with code {} ({:?}), not UNAVAILABLE", i, c, m));
-                        }
-                        if Some(*r) != down {
-                            return Some(format!("call {} got the error of an older refusal (reason {})", i, r));
-                        }
-                        if *k == 0 {
-                            return Some(format!("call {}: UNAVAILABLE without the connect error ({:?})", i, m));
-                        }
-                        if seen_attempts.contains(k) {
-                            return Some(format!("the failure of attempt #{} was reported to more than one call", k));
-                        }
-                        if let Some(last) = seen_attempts.last() {
-                            if k <= last {
-                                return Some(format!("call {} got the stale failure of attempt #{}", i, k));
+                    if conn == Conn::MaybeLive {
+                        // resolved by the first call of the batch: CANCELLED by hyper = nobody
+                        // had noticed the drop; anything else must be what a noticed drop gives
+                        conn = if j == 0 && matches!(out, Outcome::Err(1, 0, _, _)) { Conn::Doomed } else { Conn::No };
+                    }
+                    match conn {
+                        Conn::Live => {
+                            if *out != Outcome::Ok {
+                                return Some(format!("call {} failed ({:?}) although a connection exists: no recovery", i, out));
                             }
                         }
-                        seen_attempts.push(*k);
+                        // a call in flight on an established connection that the peer kills (racy drop,
+                        // or a peer that is not HTTP/2): outside the quantifier; it must still be
+                        // definite, and CANCELLED (hyper) or UNAVAILABLE
+                        Conn::Doomed => match out {
+                            Outcome::Err(1, ..) | Outcome::Err(14, ..) => {}
+                            _ => return Some(format!("call {} on a dying connection: {:?}, neither CANCELLED nor UNAVAILABLE", i, out)),
+                        },
+                        Conn::No | Conn::MaybeLive => {
+                            attempts += 1;
+                            match (net, out) {
+                                (Net::Up, Outcome::Ok) => conn = Conn::Live,
+                                (Net::Up, _) => {
+                                    return Some(format!(
+                                        "call {} failed ({:?}) although the endpoint is reachable: no recovery",
+                                        i, out
+                                    ))
+                                }
+                                (_, Outcome::Ok) => {
+                                    return Some(format!("call {} succeeded although no connection can be made", i))
+                                }
+                                (Net::Down(r0), Outcome::Err(c, k, r, m)) => {
+                                    if *c != 14 {
+                                        return Some(format!("call {} failed with code {} ({:?}), not UNAVAILABLE", i, c, m));
+                                    }
+                                    if *r != r0 {
+                                        return Some(format!("call {} got the error of an older refusal (reason {})", i, r));
+                                    }
+                                    if *k <= last_reported {
+                                        return Some(format!(
+                                            "the failure of attempt #{} was reported again (call {}): replayed onto a later call",
+                                            k, i
+                                        ));
+                                    }
+                                    if *k != attempts {
+                                        return Some(format!(
+                                            "call {} got the failure of attempt #{}, not of the attempt it triggered (#{})",
+                                            i, k, attempts
+                                        ));
+                                    }
+                                    last_reported = *k;
+                                }
+                                (Net::Dead, Outcome::Err(c, _, _, m)) => {
+                                    if *c != 14 {
+                                        return Some(format!(
+                                            "handshake-fault(dead): call {} failed with code {} ({:?}), not UNAVAILABLE, while no connection can be made",
+                                            i, c, m
+                                        ));
+                                    }
+                                }
+                                (Net::Garbage, Outcome::Err(c, _, _, m)) => {
+                                    // hyper's handshake only writes: the connection is established
+                                    // and dies under this request (observation F-C14b)
+                                    conn = Conn::Doomed;
+                                    if *c != 1 && *c != 14 {
+                                        return Some(format!(
+                                            "call {} on a connection to a peer that is not HTTP/2 failed with code {} ({:?}), neither CANCELLED nor UNAVAILABLE",
+                                            i, c, m
+                                        ));
+                                    }
+                                }
+                                (_, Outcome::Hang) => unreachable!(),
+                            }
+                        }
                     }
+                }
+                if conn == Conn::Doomed || conn == Conn::MaybeLive {
+                    conn = Conn::No; // quiescent point after the batch
                 }
             }
         }
     }
-    let _ = quiescent;
+    if o.attempts != attempts {
+        return Some(format!(
+            "{} connector invocations, but the calls that found no connection (plus the eager connect) account for {}",
+            o.attempts, attempts
+        ));
+    }
     None
 }
 
@@ -432,8 +576,8 @@ fn obs_tr(o: &Obs) -> Tr {
     ])
 }
 
-fn push_case(out: &mut Out, kind: &str, lazy: bool, lat: u32, down0: Option<u32>, hist: &[Step]) {
-    let o = run_blocking(lazy, lat, down0, hist);
+fn push_case(out: &mut Out, kind: &str, lazy: bool, lat: u32, net0: Net, hist: &[Step]) {
+    let o = run_blocking(lazy, lat, net0, hist);
     // how the race of a non-quiescent drop was resolved by the runtime is a schedule parameter of
     // the model, read off the implementation: the call that follows at once was CANCELLED by hyper
     // iff the client's connection task had not run yet
@@ -441,13 +585,17 @@ fn push_case(out: &mut Out, kind: &str, lazy: bool, lat: u32, down0: Option<u32>
     let mut ci = 0;
     for (p, s) in hist.iter().enumerate() {
         let mut c = s.coq();
-        if *s == Step::DropRacy && hist.get(p + 1) == Some(&Step::Call) {
-            if let Some(Outcome::Err(1, 0, _, _)) = o.calls.get(ci) {
-                c = "EnvRacyDrop false".into();
+        if *s == Step::DropRacy {
+            if let Some(Step::Calls(k)) = hist.get(p + 1) {
+                if *k > 0 {
+                    if let Some(Outcome::Err(1, 0, _, _)) = o.calls.get(ci) {
+                        c = "EnvRacyDrop false".into();
+                    }
+                }
             }
         }
-        if *s == Step::Call {
-            ci += 1;
+        if let Step::Calls(k) = s {
+            ci += *k as usize;
         }
         steps_coq.push(c);
     }
@@ -455,18 +603,16 @@ fn push_case(out: &mut Out, kind: &str, lazy: bool, lat: u32, down0: Option<u32>
         "obs_run {} {} {} {}",
         coq_bool(lazy),
         lat,
-        match down0 {
-            None => "Up".to_string(),
-            Some(r) => format!("(Down {})", r),
-        },
+        net0.coq(),
         coq_list(&steps_coq, |s| s.clone())
     );
-    let n_calls = hist.iter().filter(|s| **s == Step::Call).count();
+    let nc = n_calls(hist);
     out.hist("history_len", hist.len());
-    out.hist("calls", n_calls);
+    out.hist("calls", nc.min(12));
+    out.hist("largest_batch", hist.iter().map(|s| if let Step::Calls(k) = s { *k } else { 0 }).max().unwrap_or(0));
     out.hist("mode", if lazy { "lazy" } else { "eager" });
     out.hist("latency", lat);
-    out.hist("attempts", o.attempts);
+    out.hist("attempts", o.attempts.min(12));
     out.hist(
         "outcomes",
         format!(
@@ -475,27 +621,32 @@ fn push_case(out: &mut Out, kind: &str, lazy: bool, lat: u32, down0: Option<u32>
             o.calls.iter().filter(|c| matches!(c, Outcome::Err(..))).count().min(4)
         ),
     );
-    let orc = oracle(lazy, down0, hist, &o);
+    for c in &o.calls {
+        if let Outcome::Err(code, ..) = c {
+            out.hist("error_codes", code);
+        }
+    }
+    let orc = oracle(lazy, net0, hist, &o);
     out.push(Case {
         kind: kind.to_string(),
-        input: json!({"lazy": lazy, "lat": lat, "down0": down0, "history": hist.iter().map(|s| s.json()).collect::<Vec<_>>(),
+        input: json!({"lazy": lazy, "lat": lat, "net0": net0.json(), "history": hist.iter().map(|s| s.json()).collect::<Vec<_>>(),
                       "impl": {"eager": o.eager.as_ref().map(|e| e.json()), "calls": o.calls.iter().map(|c| c.json()).collect::<Vec<_>>(), "attempts": o.attempts}}),
         model,
         impl_obs: obs_tr(&o),
         oracle: orc,
-        nontrivial: n_calls >= 1 && hist.len() >= 2,
+        nontrivial: nc >= 1 && hist.len() >= 2,
     });
 }
 
-/// event script -> history with a call at the quiescent point after every event
-fn with_calls(script: &[Step], leading_call: bool) -> Vec<Step> {
+/// event script -> history with `k` calls at the quiescent point after every event
+fn with_calls(script: &[Step], leading_call: bool, k: impl Fn(usize) -> u32) -> Vec<Step> {
     let mut h = vec![];
     if leading_call {
-        h.push(Step::Call);
+        h.push(Step::Calls(k(0)));
     }
-    for s in script {
+    for (j, s) in script.iter().enumerate() {
         h.push(*s);
-        h.push(Step::Call);
+        h.push(Step::Calls(k(j + 1)));
     }
     h
 }
@@ -514,6 +665,14 @@ fn all_seqs(alpha: &[Step], len: usize) -> Vec<Vec<Step>> {
         r = n;
     }
     r
+}
+/// distinct refusal reasons so that a stale error is recognisable
+fn distinct_reasons(s: &mut [Step], base: u32) {
+    for (j, e) in s.iter_mut().enumerate() {
+        if let Step::Set(Net::Down(_)) = e {
+            *e = Step::Set(Net::Down(base + j as u32));
+        }
+    }
 }
 
 fn main() {
@@ -535,7 +694,7 @@ fn main() {
             v["kind"].as_str().unwrap_or("replay"),
             i["lazy"].as_bool().unwrap(),
             i["lat"].as_u64().unwrap() as u32,
-            i["down0"].as_u64().map(|x| x as u32),
+            Net::from_json(&i["net0"]),
             &hist,
         );
         out.finish(IMPORTS, "replay of one stored case", json!({}));
@@ -543,106 +702,184 @@ fn main() {
     }
     let mut r = Rng::new(a.seed);
     use Step::*;
+    let fail = |r: u32| Set(Net::Down(r));
+    let succeed = Set(Net::Up);
+    let dead = Set(Net::Dead);
+    let garbage = Set(Net::Garbage);
 
     // corpus: hand-picked histories
-    let corpus: Vec<(bool, u32, Option<u32>, Vec<Step>)> = vec![
-        (true, 0, Some(3), vec![Call, Call, Succeed, Call, Call]),
-        (true, 0, None, vec![Call, Drop, Call, Fail(5), Drop, Call, Call, Succeed, Call]),
-        (false, 0, Some(3), vec![Call]),
-        (false, 0, None, vec![Call, Fail(4), Call, Drop, Call, Call, Succeed, Call]),
-        (false, 2, None, vec![Drop, Fail(9), Call, Fail(8), Call, Succeed, Call, Drop, Drop, Call]),
-        (true, 3, Some(1), vec![Call, Fail(2), Call, Succeed, Call, Drop, Fail(6), Call, Succeed, Call]),
-        (true, 0, None, vec![]),
-        (false, 0, None, vec![]),
-        (true, 1, None, vec![Succeed, Drop, Fail(2), Succeed, Call]),
+    let corpus: Vec<(bool, u32, Net, Vec<Step>)> = vec![
+        (true, 0, Net::Down(3), vec![CALL, CALL, succeed, CALL, CALL]),
+        (true, 0, Net::Up, vec![CALL, Drop, CALL, fail(5), Drop, CALL, CALL, succeed, CALL]),
+        (false, 0, Net::Down(3), vec![CALL]),
+        (false, 0, Net::Up, vec![CALL, fail(4), CALL, Drop, CALL, CALL, succeed, CALL]),
+        (false, 2, Net::Up, vec![Drop, fail(9), CALL, fail(8), CALL, succeed, CALL, Drop, Drop, CALL]),
+        (true, 3, Net::Down(1), vec![CALL, fail(2), CALL, succeed, CALL, Drop, fail(6), CALL, succeed, CALL]),
+        (true, 0, Net::Up, vec![]),
+        (false, 0, Net::Up, vec![]),
+        (true, 1, Net::Up, vec![succeed, Drop, fail(2), succeed, CALL]),
     ];
-    for (lazy, lat, d0, h) in &corpus {
-        push_case(&mut out, "corpus.history", *lazy, *lat, *d0, h);
+    for (lazy, lat, n0, h) in &corpus {
+        push_case(&mut out, "corpus.history", *lazy, *lat, *n0, h);
+    }
+    // queued calls (audit M19)
+    let conc: Vec<(bool, u32, Net, Vec<Step>)> = vec![
+        (true, 0, Net::Down(3), vec![Calls(3), succeed, Calls(3)]),
+        (true, 2, Net::Up, vec![Calls(3), Drop, fail(4), Calls(2), succeed, Calls(4)]),
+        (false, 1, Net::Up, vec![Calls(2), Drop, Calls(3), fail(7), Drop, Calls(3), succeed, Calls(2)]),
+        (true, 3, Net::Down(9), vec![Calls(5)]),
+        (true, 0, Net::Up, vec![Calls(0), Calls(1), Calls(0)]),
+    ];
+    for (lazy, lat, n0, h) in &conc {
+        push_case(&mut out, "corpus.concurrent", *lazy, *lat, *n0, h);
     }
     // what the stack does off the quiescent points (documented, outside the quantifier)
     for lazy in [true, false] {
         for h in [
-            vec![Call, DropRacy, Call, Call],
-            vec![Call, Fail(7), DropRacy, Call, Call, Succeed, Call],
-            vec![DropRacy, Call],
+            vec![CALL, DropRacy, CALL, CALL],
+            vec![CALL, fail(7), DropRacy, CALL, CALL, succeed, CALL],
+            vec![DropRacy, CALL],
+            vec![CALL, DropRacy, Calls(3), CALL],
         ] {
-            push_case(&mut out, "corpus.racy", lazy, 0, None, &h);
+            push_case(&mut out, "corpus.racy", lazy, 0, Net::Up, &h);
         }
+    }
+    // transport connects, HTTP/2 does not (audit M4)
+    let hs: Vec<(bool, u32, Net, Vec<Step>)> = vec![
+        (true, 0, Net::Dead, vec![CALL, CALL, succeed, CALL]),
+        (true, 0, Net::Garbage, vec![CALL, CALL, succeed, CALL]),
+        (false, 0, Net::Dead, vec![CALL]),
+        (false, 0, Net::Garbage, vec![CALL, succeed, CALL]),
+        (false, 1, Net::Up, vec![CALL, dead, Drop, CALL, CALL, garbage, CALL, succeed, CALL]),
+        (true, 2, Net::Garbage, vec![Calls(3), CALL]),
+        (true, 1, Net::Dead, vec![Calls(2)]),
+    ];
+    for (lazy, lat, n0, h) in &hs {
+        push_case(&mut out, "corpus.handshake", *lazy, *lat, *n0, h);
     }
 
     // exhaustive: every script over {fail, succeed, drop} up to the bound, a call after every event
     let max = if a.thorough { 8 } else { 6 };
-    let alpha = [Fail(0), Succeed, Drop];
+    let alpha = [fail(0), succeed, Drop];
     for len in 0..=max {
         for (idx, mut s) in all_seqs(&alpha, len).into_iter().enumerate() {
-            // distinct reasons so that a stale error is recognisable
-            for (j, e) in s.iter_mut().enumerate() {
-                if let Fail(_) = e {
-                    *e = Fail(10 + j as u32);
-                }
-            }
+            distinct_reasons(&mut s, 10);
             for lazy in [true, false] {
                 // initial reachability and latency vary with the index so that all combinations
                 // occur at every length; the shortest lengths get all of them
-                let combos: Vec<(Option<u32>, u32, bool)> = if len <= (if a.thorough { 6 } else { 4 }) {
-                    vec![(None, 0, false), (Some(1), 0, false), (None, 1, true), (Some(2), 2, true)]
+                let combos: Vec<(Net, u32, bool)> = if len <= (if a.thorough { 6 } else { 4 }) {
+                    vec![(Net::Up, 0, false), (Net::Down(1), 0, false), (Net::Up, 1, true), (Net::Down(2), 2, true)]
                 } else {
                     let k = idx % 4;
-                    vec![(if k & 1 == 0 { None } else { Some(1) }, (k as u32) % 3, k >= 2)]
+                    vec![(if k & 1 == 0 { Net::Up } else { Net::Down(1) }, (k as u32) % 3, k >= 2)]
                 };
-                for (d0, lat, lead) in combos {
-                    if !lazy && d0.is_some() && len > 0 {
+                for (n0, lat, lead) in combos {
+                    if !lazy && n0 != Net::Up && len > 0 {
                         continue; // eager + initially refused: no channel, one case (len 0) suffices
                     }
-                    let h = with_calls(&s, lead);
-                    push_case(&mut out, "script.exhaustive", lazy, lat, d0, &h);
+                    let h = with_calls(&s, lead, |_| 1);
+                    push_case(&mut out, "script.exhaustive", lazy, lat, n0, &h);
                 }
             }
         }
     }
-    // random histories with calls at arbitrary positions (several in a row, none between faults)
+    // queued calls: every script up to a smaller bound, k = 2..4 calls queued together after every event
+    let maxc = if a.thorough { 6 } else { 4 };
+    for len in 0..=maxc {
+        for (idx, mut s) in all_seqs(&alpha, len).into_iter().enumerate() {
+            distinct_reasons(&mut s, 30);
+            for lazy in [true, false] {
+                for (n0, lat) in [(Net::Up, (idx % 3) as u32), (Net::Down(1), ((idx + 1) % 3) as u32)] {
+                    if !lazy && n0 != Net::Up {
+                        continue;
+                    }
+                    let h = with_calls(&s, true, |j| 2 + ((idx + j) % 3) as u32);
+                    push_case(&mut out, "concurrent.k", lazy, lat, n0, &h);
+                }
+            }
+        }
+    }
+    // random histories with calls at arbitrary positions (several in a row, none between faults,
+    // batches of 0..4)
     let n = if a.thorough { 15000 } else { 700 };
     for _ in 0..n {
         let len = r.range(1, if a.thorough { 16 } else { 10 }) as usize;
         let mut h = vec![];
         for j in 0..len {
-            h.push(match r.below(7) {
-                0 => Fail(20 + j as u32),
-                1 => Succeed,
+            h.push(match r.below(8) {
+                0 => fail(20 + j as u32),
+                1 => succeed,
                 2 => Drop,
-                _ => Call,
+                3 | 4 => Calls(r.range(0, 4) as u32),
+                _ => CALL,
             });
         }
         let lazy = r.chance(1, 2);
-        let d0 = if r.chance(1, 3) { Some(r.range(1, 5) as u32) } else { None };
+        let n0 = if r.chance(1, 3) { Net::Down(r.range(1, 5) as u32) } else { Net::Up };
         let lat = r.below(4) as u32;
-        push_case(&mut out, "history.random", lazy, lat, d0, &h);
+        push_case(&mut out, "history.random", lazy, lat, n0, &h);
+    }
+    // the wider alphabet: + {connect succeeds but the peer closes, connect succeeds but the peer is
+    // not HTTP/2}; every script up to a small bound and random ones
+    let alpha5 = [fail(0), succeed, Drop, dead, garbage];
+    let maxh = if a.thorough { 4 } else { 3 };
+    for len in 0..=maxh {
+        for (idx, mut s) in all_seqs(&alpha5, len).into_iter().enumerate() {
+            if len > 0 && s.iter().all(|e| matches!(e, Set(n) if n.plain()) || *e == Drop) {
+                continue; // already in script.exhaustive
+            }
+            distinct_reasons(&mut s, 40);
+            for lazy in [true, false] {
+                for n0 in [Net::Up, Net::Dead, Net::Garbage] {
+                    if len == 0 && n0 == Net::Up {
+                        continue;
+                    }
+                    let h = with_calls(&s, true, |j| if (idx + j) % 5 == 0 { 2 } else { 1 });
+                    push_case(&mut out, "script.handshake", lazy, (idx % 3) as u32, n0, &h);
+                }
+            }
+        }
+    }
+    let nh = if a.thorough { 3000 } else { 300 };
+    for _ in 0..nh {
+        let len = r.range(1, 10) as usize;
+        let mut h = vec![];
+        for j in 0..len {
+            h.push(match r.below(10) {
+                0 => fail(50 + j as u32),
+                1 => succeed,
+                2 => Drop,
+                3 => dead,
+                4 => garbage,
+                5 => Calls(r.range(0, 3) as u32),
+                _ => CALL,
+            });
+        }
+        let n0 = *r.pick(&[Net::Up, Net::Down(3), Net::Dead, Net::Garbage]);
+        push_case(&mut out, "history.random_handshake", r.chance(1, 2), r.below(3) as u32, n0, &h);
     }
 
     out.finish(
         IMPORTS,
-        "script.exhaustive: ALL scripts over {connect fails, connect succeeds, connection dropped} up to length 6 (thorough 8) x lazy/eager, a unary call at the quiescent point after every event (and optionally before the first), initial reachability and connector latency (0..2 Pending polls) varied; history.random: random histories with calls at arbitrary positions; corpus.racy: calls issued before the client noticed the drop (outside the property's quantifier, behaviour recorded and modelled). Real Endpoint::connect_with_connector[_lazy] + Buffer worker + Reconnect + hyper h2 client against a real tonic Server over tokio duplex pipes, paused clock. Non-trivial = at least one call and two steps. Distinct = distinct (kind, model expression).",
+        "script.exhaustive: ALL scripts over {connect fails, connect succeeds, connection dropped} up to length 6 (thorough 8) x lazy/eager, a unary call at the quiescent point after every event (and optionally before the first), initial reachability and connector latency (0..2 Pending polls) varied; concurrent.k: ALL such scripts up to length 4 (thorough 6) with 2..4 calls issued TOGETHER (queued in the tower Buffer) after every event; history.random: random histories with calls and batches of 0..4 at arbitrary positions; script.handshake / history.random_handshake: the alphabet widened by {transport connects but the peer closes at once (handshake fails; strictly UNAVAILABLE, fixed finding F-C14a), transport connects but the peer is not HTTP/2 (established connection dies under the request, CANCELLED or UNAVAILABLE accepted as for racy drops)}; corpus.racy: calls issued before the client noticed the drop (outside the property's quantifier, behaviour recorded and modelled). Real Endpoint::connect_with_connector[_lazy] + Buffer worker + Reconnect + hyper h2 client against a real tonic Server over tokio duplex pipes, paused clock. Non-trivial = at least one call and two steps. Distinct = distinct (kind, model expression).",
         json!({}),
     );
 }
 
 fn explore() {
     use Step::*;
-    let cases: Vec<(bool, u32, Option<u32>, Vec<Step>)> = vec![
-        (true, 0, Some(3), vec![Call, Call, Succeed, Call, Call]),
-        (true, 0, None, vec![Call, Drop, Call, Fail(5), Drop, Call, Call, Succeed, Call]),
-        (false, 0, Some(3), vec![Call]),
-        (false, 0, None, vec![Call, Fail(4), Call, Drop, Call, Call, Succeed, Call]),
-        (true, 0, None, vec![Call, DropRacy, Call, Call]),
-        (true, 0, None, vec![Call, Fail(7), DropRacy, Call, Call, Succeed, Call]),
-        (false, 0, None, vec![DropRacy, Call, Call]),
-        (true, 2, None, vec![Call, DropRacy, Call, Call]),
+    let cases: Vec<(bool, u32, Net, Vec<Step>)> = vec![
+        (true, 0, Net::Dead, vec![CALL, CALL, Set(Net::Up), CALL]),
+        (false, 0, Net::Dead, vec![CALL]),
+        (false, 0, Net::Garbage, vec![CALL, Set(Net::Up), CALL]),
+        (true, 2, Net::Garbage, vec![Calls(3), CALL]),
+        (true, 0, Net::Up, vec![CALL, DropRacy, Calls(3), CALL]),
     ];
-    for (lazy, lat, d0, h) in cases {
-        let o = run_blocking(lazy, lat, d0, &h);
+    for (lazy, lat, n0, h) in cases {
+        let o = run_blocking(lazy, lat, n0, &h);
         println!(
-            "lazy={} lat={} down0={:?} hist={:?}\n   eager={:?}\n   calls={:?}\n   attempts={} panics={} oracle={:?}",
-            lazy, lat, d0, h, o.eager, o.calls, o.attempts, o.panics, oracle(lazy, d0, &h, &o)
+            "lazy={} lat={} net0={:?} hist={:?}\n   eager={:?}\n   calls={:?}\n   attempts={} panics={} oracle={:?}",
+            lazy, lat, n0, h, o.eager, o.calls, o.attempts, o.panics, oracle(lazy, n0, &h, &o)
         );
     }
 }
